@@ -221,9 +221,43 @@ impl<const N: usize> HasArc for G<N> {
     }
 }
 
+pub struct GArcs<'a, const N: usize> {
+    a: &'a [[bool; N]; N],
+    u: usize,
+    v: usize,
+}
+
+impl<const N: usize> Iterator for GArcs<'_, N> {
+    type Item = (usize, usize);
+
+    #[inline]
+    fn next(&mut self) -> Option<(usize, usize)> {
+        while self.u < N {
+            while self.v < N {
+                let v = self.v;
+
+                self.v += 1;
+
+                if self.a[self.u][v] {
+                    return Some((self.u, v));
+                }
+            }
+
+            self.v = 0;
+            self.u += 1;
+        }
+
+        None
+    }
+}
+
 impl<const N: usize> Arcs for G<N> {
     fn arcs(&self) -> impl Iterator<Item = (usize, usize)> {
-        (0..N).flat_map(move |u| mask(self.a[u]).map(move |v| (u, v)))
+        GArcs {
+            a: &self.a,
+            u: 0,
+            v: 0,
+        }
     }
 }
 
@@ -394,6 +428,62 @@ impl<const N: usize, W> Vertices for WG<N, W> {
     }
 }
 
+/// Hand-written iterators (no `std` adaptor chains: they are cheaper to
+/// encode).
+pub struct RowIter<'a, const N: usize, W> {
+    row: &'a [Option<W>; N],
+    v: usize,
+}
+
+impl<'a, const N: usize, W> Iterator for RowIter<'a, N, W> {
+    type Item = (usize, &'a W);
+
+    #[inline]
+    fn next(&mut self) -> Option<Self::Item> {
+        while self.v < N {
+            let v = self.v;
+
+            self.v += 1;
+
+            if let Some(w) = self.row[v].as_ref() {
+                return Some((v, w));
+            }
+        }
+
+        None
+    }
+}
+
+pub struct AllIter<'a, const N: usize, W> {
+    w: &'a [[Option<W>; N]; N],
+    u: usize,
+    v: usize,
+}
+
+impl<'a, const N: usize, W> Iterator for AllIter<'a, N, W> {
+    type Item = (usize, usize, &'a W);
+
+    #[inline]
+    fn next(&mut self) -> Option<Self::Item> {
+        while self.u < N {
+            while self.v < N {
+                let v = self.v;
+
+                self.v += 1;
+
+                if let Some(w) = self.w[self.u][v].as_ref() {
+                    return Some((self.u, v, w));
+                }
+            }
+
+            self.v = 0;
+            self.u += 1;
+        }
+
+        None
+    }
+}
+
 impl<const N: usize, W> OutNeighborsWeighted for WG<N, W> {
     type Weight = W;
 
@@ -403,10 +493,10 @@ impl<const N: usize, W> OutNeighborsWeighted for WG<N, W> {
     ) -> impl Iterator<Item = (usize, &W)> {
         assert!(u < N, "u isn't in the digraph");
 
-        self.w[u]
-            .iter()
-            .enumerate()
-            .filter_map(|(v, w)| w.as_ref().map(|w| (v, w)))
+        RowIter {
+            row: &self.w[u],
+            v: 0,
+        }
     }
 }
 
@@ -414,12 +504,11 @@ impl<const N: usize, W> ArcsWeighted for WG<N, W> {
     type Weight = W;
 
     fn arcs_weighted(&self) -> impl Iterator<Item = (usize, usize, &W)> {
-        (0..N).flat_map(move |u| {
-            self.w[u]
-                .iter()
-                .enumerate()
-                .filter_map(move |(v, w)| w.as_ref().map(|w| (u, v, w)))
-        })
+        AllIter {
+            w: &self.w,
+            u: 0,
+            v: 0,
+        }
     }
 }
 
@@ -499,6 +588,51 @@ impl<const M: usize, W> Vertices for AL<M, W> {
     }
 }
 
+pub struct ALIter<'a, const M: usize, W> {
+    g: &'a AL<M, W>,
+    from: Option<usize>,
+    i: usize,
+}
+
+impl<'a, const M: usize, W> ALIter<'a, M, W> {
+    #[inline]
+    fn step(&mut self) -> Option<&'a (usize, usize, W)> {
+        while self.i < M && self.i < self.g.m {
+            let a = &self.g.arcs[self.i];
+
+            self.i += 1;
+
+            match self.from {
+                Some(u) if a.0 != u => {}
+                _ => return Some(a),
+            }
+        }
+
+        None
+    }
+}
+
+pub struct ALOut<'a, const M: usize, W>(ALIter<'a, M, W>);
+pub struct ALAll<'a, const M: usize, W>(ALIter<'a, M, W>);
+
+impl<'a, const M: usize, W> Iterator for ALOut<'a, M, W> {
+    type Item = (usize, &'a W);
+
+    #[inline]
+    fn next(&mut self) -> Option<Self::Item> {
+        self.0.step().map(|a| (a.1, &a.2))
+    }
+}
+
+impl<'a, const M: usize, W> Iterator for ALAll<'a, M, W> {
+    type Item = (usize, usize, &'a W);
+
+    #[inline]
+    fn next(&mut self) -> Option<Self::Item> {
+        self.0.step().map(|a| (a.0, a.1, &a.2))
+    }
+}
+
 impl<const M: usize, W> OutNeighborsWeighted for AL<M, W> {
     type Weight = W;
 
@@ -508,14 +642,11 @@ impl<const M: usize, W> OutNeighborsWeighted for AL<M, W> {
     ) -> impl Iterator<Item = (usize, &W)> {
         assert!(u < self.n, "u isn't in the digraph");
 
-        let m = self.m;
-
-        self.arcs
-            .iter()
-            .enumerate()
-            .filter_map(move |(i, (x, v, w))| {
-                (i < m && *x == u).then_some((*v, w))
-            })
+        ALOut(ALIter {
+            g: self,
+            from: Some(u),
+            i: 0,
+        })
     }
 }
 
@@ -523,11 +654,10 @@ impl<const M: usize, W> ArcsWeighted for AL<M, W> {
     type Weight = W;
 
     fn arcs_weighted(&self) -> impl Iterator<Item = (usize, usize, &W)> {
-        let m = self.m;
-
-        self.arcs
-            .iter()
-            .enumerate()
-            .filter_map(move |(i, (u, v, w))| (i < m).then_some((*u, *v, w)))
+        ALAll(ALIter {
+            g: self,
+            from: None,
+            i: 0,
+        })
     }
 }
